@@ -70,6 +70,14 @@ ubf_bytes = z3.Function("ubf_bytes", I_, I_, BytesSort)
 NULL_CK = z3.Const("NULL_CHECKSUM_U32", BytesSort)
 
 
+def zi(I, v):
+    """integer argument of a modelled library call (None -> the TypeError CPython would raise)"""
+    v = I.force(v)
+    if v is None:
+        I.throw(TypeError, "None where an integer is required")
+    return to_z3_int(v)
+
+
 def ubf(value, byte_len, label="ubf"):
     return SObj(UnsignedByteField, {"value": value, "byte_len": byte_len}, label)
 
@@ -442,7 +450,6 @@ def install(w):
     def _v_size(I, self, args, kwargs, node):
         (p,) = args
         vfs_event(I, "file_size", node, path=p)
-        oracle_raise(I, "file_size", [FileNotFoundError])
         s = fs_size(fs_state(I), p.p)
         I.ctx.assume(s >= 0)
         return s
@@ -477,7 +484,7 @@ def install(w):
         vfs_event(I, "write_data", node, path=a["file"], data=a["data"], offset=a["offset"])
         d = a["data"]
         db = d.b if isinstance(d, SBytes) else None
-        fs_set(I, fs_after_write(fs_state(I), a["file"].p, db, to_z3_int(a["offset"])) if db is not None else z3.FreshConst(FS, "fs"))
+        fs_set(I, fs_after_write(fs_state(I), a["file"].p, db, zi(I, a["offset"])) if db is not None else z3.FreshConst(FS, "fs"))
         return None
 
     @w.stub_method(VirtualFilestore, "calculate_checksum")
@@ -485,8 +492,7 @@ def install(w):
         a = bind(["checksum_type", "file_path", "size_to_verify", "segment_len"], args, kwargs, {"segment_len": 4096})
         vfs_event(I, "calculate_checksum", node, path=a["file_path"], size=a["size_to_verify"],
                   checksum_type=a["checksum_type"], segment_len=a["segment_len"])
-        oracle_raise(I, "calculate_checksum", [FileNotFoundError])
-        b = SBytes(fs_checksum(fs_state(I), to_z3_int(a["checksum_type"]), a["file_path"].p, to_z3_int(a["size_to_verify"])))
+        b = SBytes(fs_checksum(fs_state(I), zi(I, a["checksum_type"]), a["file_path"].p, zi(I, a["size_to_verify"])))
         I.ctx.assume(blen(b.b) == 4)
         return b
 
@@ -499,7 +505,7 @@ def install(w):
 
     def read_result(I, path, offset, read_len):
         st = fs_state(I)
-        off, ln = to_z3_int(offset), to_z3_int(read_len)
+        off, ln = zi(I, offset), zi(I, read_len)
         b = SBytes(fs_read(st, path.p if path is not None else EMPTY_PATH, off, ln))
         size = fs_size(st, path.p) if path is not None else I.ctx.fresh("size")
         avail = z3.If(size - off > 0, size - off, 0)
